@@ -314,6 +314,23 @@ def handle (c obs : String) : String × Bool × String :=
       let model := if kind == "obj" then objObs (JsonFrame.readObject some toks) else arrObs (JsonFrame.readArray some toks)
       (model, true, "n/a: hand-made document")
     | none => ("bad-case", false, "unparsable case")
+  | ["lzarr", ws, es] =>
+    -- Lazy elements through the streaming decoder, values requested after the array was collected:
+    -- framing (readArray) composed with the Lazy round trip (identity on canonical payloads)
+    match parseElems es, ws.toNat? with
+    | some elems, some ws =>
+      let es := elems.filterMap id
+      let model := arrObs (JsonFrame.readArray some (JsonFrame.jsonLex (buildArrDoc ws es)))
+      let want := "ok " ++ hexList es
+      (model, obs == want, if obs == want then "" else s!"want {(want.take 200)}")
+    | _, _ => ("bad-case", false, "unparsable case")
+  | ["hraw", dir, _, st2] =>
+    -- one stream value, the file changed between two materialisations: the observation is the second one and
+    -- must be exactly what the second file state holds (the harness checks the first against a fresh stream)
+    if st2 == "M" then
+      let want := fmtLines true []
+      (want, obs == want, if obs == want then "" else s!"want {want}")
+    else handleRaw dir st2 obs
   | ["lazy", mode, src] => handleLazy mode src obs
   | "file" :: ts => handleFile ts obs
   | ["raw", dir, hex] => handleRaw dir hex obs
